@@ -514,6 +514,19 @@ func execute(c *drv.Ctx, d M) bool {
 		}
 		dflt := trace.Str(d["dflt"])
 		parseEvent(c, "oparse", "Accept", lines)
+		// the package's other parsers of Accept-like headers (not used by the negotiation): totality only
+		c.W.Event("oparse2", M{"panic": func() (p bool) {
+			defer func() {
+				if recover() != nil {
+					p = true
+				}
+			}()
+			h := request("Accept", lines).Header
+			header.ParseAccept2(h, "Accept")
+			header.ParseList(h, "Accept")
+			header.ParseValueAndParams(h, "Accept")
+			return false
+		}()})
 		res, p := negotiateCT(lines, offers, dflt)
 		c.W.Event("oct", M{"result": trace.B(res), "panic": p})
 		res, p = negotiateEnc(lines, offers)
